@@ -412,6 +412,20 @@ fn gen_tree(rng: &mut Rng, tok: &mut Tokens, depth: usize) -> Node {
         }
         return attrs(rng, El::with("table", groups)).node();
     }
+    if depth < 3 && rng.chance(1, 10) {
+        // a list without items (only the line break between its tags) that carries a
+        // class / id: whatever colour it has must not reach what follows it
+        let mut e = El::with(*rng.pick(&["ol", "ul", "dl"]), vec![Node::Raw("\n".into())]);
+        e.attrs.push(("class".into(), format!("c{}", rng.below(3))));
+        if rng.chance(1, 3) {
+            e.attrs.push(("id".into(), format!("i{}", rng.below(3))));
+        }
+        let mut wrap = El::with("div", vec![Node::Word(tok.unique(rng, &p)), e.node(), Node::Word(tok.unique(rng, &p))]);
+        if rng.chance(1, 3) {
+            wrap.attrs.push(("class".into(), format!("c{}", rng.below(3))));
+        }
+        return wrap.node();
+    }
     let block = depth < 3 && rng.chance(2, 3);
     let tag = if block {
         *rng.pick(&["div", "blockquote", "p"])
